@@ -102,7 +102,10 @@ class CallMixin:
         newh = newh.set(gname, fresh('ghost_' + gname.replace(':', '_'), heap_sort(gname)))
       na = fresh('alloc', I)
       newh = newh.set('alloc', na)
-      return st.with_heap(newh).assume(na >= h.alloc, len_nonneg(newh.get('llen')))
+      return st.with_heap(newh).assume(
+          na >= h.alloc, len_nonneg(newh.get('llen')),
+          # whatever the callee does, tuples are immutable
+          tuples_immutable(h.get('llen'), h.get('lelt'), newh.get('llen'), newh.get('lelt'), h.alloc, cls_fn))
     if ctr.allocates:
       na = fresh('alloc', I)
       facts.append(na >= h.alloc)
@@ -143,8 +146,14 @@ class CallMixin:
     self.call_ord[ctr.id] = n + 1
     line = getattr(node, 'lineno', None)
     ctx_pre = C.Ctx(argmap, st.heap, st.heap, env=argmap)
-    ctx_pre.caller = st.env
+    # locals visible at the call: those of the current frame, then of the frames it was inlined
+    # into (a contract may speak about the function under verification's own locals)
+    import collections as _collections
+    ctx_pre.caller = _collections.ChainMap(st.env, *reversed(getattr(self, 'frame_envs', [])))
     ctx_pre.caller_entry_alloc = self.entry_heap.alloc
+    # the caller's entry state, for preconditions of abstract callees that relate the values
+    # handed over to what the caller itself was given
+    ctx_pre.caller_entry = C.Ctx(self.entry_args, self.entry_heap, st.heap, env=st.env)
     self.oblige(f'call:{ctr.id}@{line}/pre', 'call-pre', st, ctr.requires(ctx_pre),
                 f'precondition of {ctr.id}', line)
     if ctr.abstract:
@@ -160,14 +169,14 @@ class CallMixin:
       if self.feasible(st, c):
         se = self.havoc_call(st.assume(c), ctr, mod)
         ctx_e = C.Ctx(argmap, st.heap, se.heap, env=argmap)
-        ctx_e.caller = st.env
+        ctx_e.caller = ctx_pre.caller
         if name in ctr.raises_post:
           se = se.assume(ctr.raises_post[name](ctx_e))
         out.append(Res(se, exc=Exc(name, origin=f'{ctr.id}@{line}')))
     for name in ctr.may_raise:
       se = self.havoc_call(st, ctr, mod)
       ctx_e = C.Ctx(argmap, st.heap, se.heap, env=argmap)
-      ctx_e.caller = st.env
+      ctx_e.caller = ctx_pre.caller
       if name in ctr.raises_post:
         se = se.assume(ctr.raises_post[name](ctx_e))
       cls_t = fresh('exc_cls', I)
@@ -188,7 +197,7 @@ class CallMixin:
       items = res.items if isinstance(res, TupleImm) else [res]
       sane = [z3.Implies(is_VRef(x), ref(x) < sn.heap.alloc) for x in items if z3.is_expr(x)]
       ctx_post = C.Ctx(argmap, st.heap, sn.heap, result=res, env=argmap)
-      ctx_post.caller = st.env
+      ctx_post.caller = ctx_pre.caller
       sn = sn.assume(*sane, ctr.ensures(ctx_post))
       out.append(Res(sn, res))
     return out
@@ -203,6 +212,9 @@ class CallMixin:
     env.update(argmap)
     s2.env = env
     self.inline_depth += 1
+    if not hasattr(self, 'frame_envs'):
+      self.frame_envs = []
+    self.frame_envs.append(caller_env)      # locals of the enclosing frames (outermost first)
     saved_globals = self.module_globals
     if ctr is not None:
       self.ctr_stack.append(ctr)
@@ -222,6 +234,7 @@ class CallMixin:
       outs = self.exec_block(fnode.body, s2)
     finally:
       self.inline_depth -= 1
+      self.frame_envs.pop()
       self.module_globals = saved_globals
       if ctr is not None:
         self.ctr_stack.pop()
